@@ -786,6 +786,7 @@ type c20Case struct {
 type c20Checker struct {
 	res      *reg.Result
 	baseline map[string]uint64
+	bound    int
 }
 
 const c20Slack = 64 << 10
@@ -808,6 +809,9 @@ func (k *c20Checker) run(op *c20Op, cs *c20Case) (key, msg, outcome string, last
 				v.Bad, v.Key = "harness: "+r.setupFail, "setup"
 			case !r.returned || !r.closed:
 				v.Bad, v.Key = "harness: body ended early", "setup"
+			case cs.Mut != nil && !r.peer.lied && k.bound > 0:
+				// under a deviating schedule a speculative request may not have been issued
+				v.Outcome = "lie not reached on this schedule"
 			case cs.Mut != nil && !r.peer.lied:
 				v.Bad, v.Key = fmt.Sprintf("harness: reply %d was never reached", cs.Reply), "setup"
 			case strings.HasPrefix(r.result, "NOVALUE"):
@@ -824,7 +828,7 @@ func (k *c20Checker) run(op *c20Op, cs *c20Case) (key, msg, outcome string, last
 		}
 		return c20Body(op, cs.Reply, cs.Mut, r), judge
 	}
-	res := explore.Run(explore.Config{Prop: "C20", Strategy: "db", Bound: 0, MaxSteps: 60000}, sc)
+	res := explore.Run(explore.Config{Prop: "C20", Strategy: "db", Bound: k.bound, MaxSteps: 60000}, sc)
 	k.res.Evaluations += res.Evaluations
 	k.res.States += res.States
 	k.res.Transitions += res.Transitions
@@ -964,6 +968,12 @@ func init() {
 		res := reg.NewResult(c.Part)
 		k := &c20Checker{res: res, baseline: map[string]uint64{}}
 		ops := c20Ops()
+		kinds := map[string]bool{}
+		for _, kd := range strings.Split(c.Arg("kinds", ""), "+") {
+			if kd != "" {
+				kinds[kd] = true
+			}
+		}
 		if c.Replay != nil {
 			var cs c20Case
 			if err := json.Unmarshal(c.Replay, &cs); err != nil {
@@ -1001,7 +1011,9 @@ func init() {
 				continue
 			}
 			// honest conversation: number of replies, their bytes, allocation baseline
+			k.bound = 0
 			key, msg, _, hr := k.run(op, &c20Case{Op: op.name})
+			k.bound = c.ArgInt("bound", 0)
 			if res.EngineError != "" {
 				return res
 			}
@@ -1015,6 +1027,9 @@ func init() {
 			for ri, rep := range honest {
 				slots++
 				for _, m := range c20Mutations(rep, quick, allBodies) {
+					if len(kinds) > 0 && !kinds[m.Kind] {
+						continue
+					}
 					i++
 					if !c.Mine(i) {
 						continue
@@ -1044,8 +1059,8 @@ func init() {
 		res.Notes["operations"] = len(ops)
 		res.Notes["reply_slots"] = slots
 		if res.Exhaustive {
-			res.Bound = fmt.Sprintf("%d operations, %d reply slots, every enumerated mutation of every reply (%s cuts, %s tiny bodies), db(0)", len(ops), slots,
-				map[bool]string{true: "field-boundary", false: "all"}[quick], map[bool]string{true: "all 65793", false: "covering 513"}[allBodies])
+			res.Bound = fmt.Sprintf("%d operations, %d reply slots, every enumerated mutation of every reply (%s cuts, %s tiny bodies), db(%d)", len(ops), slots,
+				map[bool]string{true: "field-boundary", false: "all"}[quick], map[bool]string{true: "all 65793", false: "covering 513"}[allBodies], c.ArgInt("bound", 0))
 		} else {
 			res.Bound = fmt.Sprintf("budget expired after %d conversations in this shard", done)
 		}
@@ -1059,7 +1074,7 @@ func init() {
 			"cut at byte offsets then EOF; frame length (also 256Ki+1, 16Mi) and every inner length/count field <- {0,1,n-1,n+1,2^31-1,2^32-1}; reply truncated at byte offsets with the frame length adjusted; extra bytes inside the frame; a valid reply of every other type; type byte replaced; wrong id; frames with bodies of length <= 2; " +
 			"one reply mutated, follow-ups answered honestly; distinct = distinct (operation, reply, mutation)",
 		Assumptions: []string{
-			"one deterministic schedule per conversation (db(0))",
+			"one deterministic schedule per conversation (db(0)); the thorough tier adds every single-deviation schedule (db(1)) for all mutations except the tiny bodies",
 			"a mutation that breaks the framing (cut, frame length) is followed by EOF: a client waiting for bytes a server announced but never sends waits by protocol",
 			"the peer closes its write side when it sees EOF on its read side (Client.Close waits for that by design)",
 			"allocation bound is differential: TotalAlloc delta of the call <= delta of the honest conversation + 64 * bytes received + 64 KiB",
@@ -1069,6 +1084,8 @@ func init() {
 			if tier == "thorough" {
 				return []reg.Job{
 					{Part: "C20/replies", Build: "instr", Args: map[string]string{"bodies": "all"}, Shards: 16, BudgetS: 1200, Label: "all operations, all cuts, all bodies of length <= 2"},
+					{Part: "C20/replies", Build: "instr", Args: map[string]string{"bound": "1", "kinds": "short+field+subst+typebyte+wrongid+pad+cut+framelen"}, Shards: 16, BudgetS: 900, Optional: true,
+						Label: "all operations, all mutations except tiny bodies, all schedules with one deviation (db1)"},
 				}
 			}
 			return []reg.Job{
